@@ -10,4 +10,22 @@ CHECKS = {
         "note": "Bounded: all sequences up to length 3 (quick) / 4 plus boundary sizes up to 6 (thorough) over the 32 byte-granular sizes; trusts TLC, solang-parser and the harness' type-class projection.",
         "technique": "TLA+ spec (Slots.tla) + TLC exhaustive enumeration + replay into real code + TLC trace validation",
     },
+    "C09": {
+        "text": "TLC checks exclusivity, monotonicity and placement-independence of the version gates on the pragma-scan machine for every version triple in 0.0.0..2.12.40, operator spelling and header shape; every generated header is rendered and replayed into the four real detectors and the real version extraction; corpus programs under sampled versions are validated by the TV_C09 trace specification.",
+        "design_ref": "section 7 C09",
+        "note": "Exhaustive over the stated box of versions (quick: all versions bare, boundary versions for all spellings); fixed file body; trusts TLC and solang-parser.",
+        "technique": "TLA+ spec (Version.tla) + TLC exhaustive enumeration + replay into real code + TLC trace validation",
+    },
+    "C02": {
+        "text": "TLC checks the offset->line Scan machine against the declarative LineOf on every small text and token-start offset, and the Emit layout machine against LineOf on every gap pattern; texts/offsets are replayed into get_line_number; corpus programs re-laid out with stress layouts and TLC-generated gap patterns are analysed by all 30 detectors and validated by the TV_C02 trace specification.",
+        "design_ref": "section 7 C02",
+        "note": "Which construct is flagged is decided by C05-C08; here lines must follow the flag tokens observed on the one-token-per-line layout. Bounded text length (6/7 byte classes) and gap patterns (period <= 2).",
+        "technique": "TLA+ spec (Lines.tla) + TLC exhaustive enumeration + replay into real code + TLC trace validation",
+    },
+    "C17": {
+        "text": "Corpus programs and variants with code-like string contents are re-laid out with injective gap patterns enumerated by TLC (comments with code-like and multi-byte text, CRLF, tabs, blank lines); the TV_C02 trace specification accepts a run only if exactly the same tokens are flagged as on the one-token-per-line layout and the lines moved with them.",
+        "design_ref": "section 7 C17",
+        "note": "Compares two runs of the same build; token identity via solang's public lexer; comments next to a pragma value are not generated.",
+        "technique": "TLA+ spec (Lines.tla Emit machine) + TLC-generated layouts + TLC trace validation of recorded runs",
+    },
 }
